@@ -120,7 +120,7 @@ CLAIMED = {
         "shared storage. Partial: per-operation refinement lemmas for append/update/filtered/sliced/reindexed/collapsed/"
         "column_stack are not yet theorems.",
         "Trusted: Lean kernel; the iindex model is tied by correspondence only for the operations without theorems.",
-        "Lean 4 proof (refinement per operation + induction over histories, partial) + per-step history correspondence + common_rowids regenerated from the source (translator) and proved to be the modelled query",
+        "Lean 4 proof (refinement per operation + induction over histories, partial) + per-step history correspondence + common_rowids and the re-encoding block of shift_common regenerated from the source (translator) and proved to be the modelled query / operation",
         "DESIGN.md §5 C06"),
     "C07": (
         "Lean 4: the well-formedness predicate WF as a proposition, its decidable twin wf (evaluated by the harness on every "
@@ -172,7 +172,7 @@ CLAIMED = {
         "dimension and every v in 0..extent (+ one outside) the real cube outputs of all aggregates are compared with the "
         "unshifted cube, also after re-normalising; model count cube of the shifted dims compared.",
         "Trusted: as C03/C06; both cubes use the same explicit extents covering both commons.",
-        "Lean 4 proof (corollary of the refinement theorems) + re-encoding sweep on the real code + the marginal pass regenerated from the source writes each dimension's own common slice",
+        "Lean 4 proof (corollary of the refinement theorems) + re-encoding sweep on the real code + the marginal pass regenerated from the source writes each dimension's own common slice + shift_common's re-encoding regenerated from the source and proved unobservable in every aggregate",
         "DESIGN.md §5 C05"),
     "C16": (
         "Lean 4 theorem: tasks whose steps change only their own footprint and depend only on it, with pairwise disjoint "
@@ -180,10 +180,10 @@ CLAIMED = {
         "and the serial loop); the views of distinct sub-cubes are disjoint cell sets. Partial: that the real tasks are "
         "disciplined is established by the harness, not by proof: region views checked pairwise with numpy.shares_memory, "
         "all/seeded task permutations, a deterministic seeded scheduler interleaving workers at source-line granularity, "
-        "real ThreadPools of size 1..16 under a 1e-6 s switch interval, outputs compared bit-for-bit with the serial run.",
+        "real ThreadPools of size 1..16 under a 1e-6 s switch interval, a pool that reaches the end state of a LOST UPDATE of the unlocked diagnostic counters, outputs compared bit-for-bit with the serial run.",
         "Trusted: Lean kernel; the GIL, NumPy's internal locking and the allocator are outside the model; the seeded "
         "scheduler interleaves at source-line (not single-bytecode) granularity of catii code.",
-        "Lean 4 proof (frame + locality => commutation, induction over schedules, partial) + deterministic seeded scheduling + driver facts regenerated from ccube.calculate / xcube.calculate (translator) discharging the model's assumptions about task footprints",
+        "Lean 4 proof (frame + locality => commutation, induction over schedules, partial) + deterministic seeded scheduling + driver facts regenerated from ccube.calculate / xcube.calculate (translator) discharging the model's assumptions about task footprints (stores only to diagnostics, no read of a diagnostic outside its own bookkeeping)",
         "DESIGN.md §5 C16"),
     "C20": (
         "Lean 4 theorems about the driver fold with a raising callback: serial evaluation stops at the first raising "
